@@ -406,7 +406,7 @@ def judge(ctx, boxes):
     chunks = []
     for b in boxes:
         evs = b.events
-        size = 1500
+        size = 3000
         for i in range(0, len(evs), size):
             part = evs[i:i + size]
             js = [dict(e) for e, _ in part]
